@@ -23,7 +23,7 @@ PROPAGATE = {'core::iter::traits::collect::IntoIterator::into_iter', 'core::iter
              'core::clone::Clone::clone', 'core::ops::drop::Drop::drop', 'core::mem::drop'}
 ORDER_FREE = {'alloc::vec::Vec::is_empty', 'alloc::vec::Vec::len', 'slice::len', 'slice::is_empty'}
 SORTS = {'slice::sort_by_key', 'slice::sort', 'slice::sort_unstable', 'slice::sort_unstable_by_key', 'slice::sort_by_cached_key', 'slice::sort_by', 'slice::sort_unstable_by'}
-DENY_PREFIX = ('std::time', 'std::env', 'std::process', 'std::thread', 'std::fs', 'std::net', 'std::hash::random', 'std::collections::hash::map::RandomState',
+DENY_PREFIX = ('core::sync::atomic', 'std::sync::', 'core::cell::', 'std::thread', 'std::time', 'std::env', 'std::process', 'std::thread', 'std::fs', 'std::net', 'std::hash::random', 'std::collections::hash::map::RandomState',
                'std::io::stdio', 'std::os', 'std::sys::', 'core::fmt::Pointer', 'std::ptr', 'core::ptr::mut_ptr', 'core::ptr::const_ptr', 'std::collections::hash::map::DefaultHasher')
 
 def subterm(t, x):
@@ -92,6 +92,14 @@ def key_projects_first(t):
 def check_crate(cr, ctx, label):
     """returns number of iteration sites"""
     n_sites = 0
+    # process-global mutable state: the expansion of a declaration must not depend on what was expanded before it
+    for path, it in sorted(cr.items.items()):
+        if it['kind'].startswith('Static'):
+            if it.get('static_mut') or it.get('freeze') is False:
+                ctx.violation('process-state', None, path, 'the generator keeps process-global mutable state: static %s: %s%s' % (path, it.get('ty_s'), ' (static mut)' if it.get('static_mut') else ' (interior mutability)'),
+                              key='C17/process-state/%s/%s' % (label, path), construct=path)
+            else:
+                ctx.ok('process-state')
     for path, b in sorted(cr.bodies.items()):
         if 'mir' not in b or b['kind'] not in ('Fn', 'AssocFn', 'Closure'):
             continue
@@ -188,7 +196,7 @@ def check_crate(cr, ctx, label):
     return n_sites
 
 def fixture_stage():
-    st = X.Stage('fixture-c17-v1')
+    st = X.Stage('fixture-c17-v2')
     def build(out):
         ws = X.scratch_dir('fx17')
         try:
@@ -222,12 +230,12 @@ def main(tier, seed, t0):
         fctx = Ctx(PROP)
         check_crate(Crate(ffp), fctx, 'fixture')
         flagged = {v['item'].split('::')[-1]: v['rule'] for v in fctx.violations}
-        want = {'bad_unsorted': 'order-taint', 'bad_conditional_sort': 'order-taint', 'bad_random_state': 'denylist', 'bad_time': 'denylist'}
+        want = {'bad_unsorted': 'order-taint', 'bad_conditional_sort': 'order-taint', 'bad_random_state': 'denylist', 'bad_time': 'denylist', 'bad_process_state': 'denylist', 'FIRST': 'process-state'}
         for k, r in want.items():
             if flagged.get(k) != r:
                 ctx.error('positive fixture %s not flagged by %s (got %s): the rule is broken' % (k, r, flagged.get(k)))
-        if 'good_sorted' in flagged:
-            ctx.error('negative fixture good_sorted was flagged')
+        if 'good_sorted' in flagged or 'GOOD_TABLE' in flagged:
+            ctx.error('a negative fixture was flagged: %s' % flagged)
         ctx.sample({'fixtures_flagged': flagged})
     ctx.programs = {'enum_tools'}
     ctx.nontrivial = set('site%d' % i for i in range(n_sites)) | {'denylist'}
